@@ -463,6 +463,46 @@ def c06(ctx):
                                                                  ("handler-blocked", handler_blocked), ("retry-after-buffer-overflow", retry_after_overflow)])
     elif not fails:
         raise Inconclusive("no retried-and-acknowledged run was recorded")
+    # the replay buffer as a sequential object: call schedules enumerated by TLC (ReplayBufGen) performed on the real
+    # bufferedReadSeeker (in-package test through go test -overlay), every call judged by ReplayBuf (ReplayBufTrace)
+    import random
+    tlc_must_hold(ctx, "ReplayBuf", "ReplayBuf_MC.cfg")
+    sched = json.load(open(tlc_generate(ctx, "ReplayBufGen", "ReplayBufGen.cfg", "brs_schedules.json")))
+    rnd = random.Random(ctx.seed)
+    if ctx.tier != "thorough":
+        sched["schedules"] = rnd.sample(sched["schedules"], 500)
+    spath = os.path.join(ctx.scratch, "brs_in.json")
+    json.dump(sched, open(spath, "w"))
+    bout = os.path.join(ctx.scratch, "brs_out.ndjson")
+    rc, out = go_test_overlay(ctx, "agent/utils", os.path.join(VERIF, "harness", "overlay", "brs_verif_test.go.txt"), run="TestVerifReplayBuf",
+                              env={"VERIF_BRS_IN": spath, "VERIF_BRS_OUT": bout})
+    if rc != 0 or not os.path.exists(bout):
+        save_debug(ctx, "brs.out", out)
+        raise Inconclusive("overlay test of bufferedReadSeeker did not run: %s" % out[-500:])
+    bsegs = split_segments(read_ndjson(bout))
+    ctx.extra["replay_buffer_schedules"] = len(bsegs)
+    ctx.evaluations += len(bsegs)
+    bf = validate_segments(ctx, "ReplayBufTrace", "ReplayBufTrace.cfg", bsegs, batch=1500)
+    for seg, idx, out, inv in bf:
+        calls = ["%s%s" % (e.get("op"), ("(%d)->%d@%s" % (e.get("n", 0), e.get("k", 0), e.get("from"))) if e.get("op") == "read" else ("->ok" if e.get("ok") else "->refused")) for e in seg[1:]]
+        report_failure(ctx, "brs:" + ",".join(e.get("op") + (str(e.get("n")) if e.get("op") == "read" else "") for e in seg[1:]) + ":pieces%s" % seg[1].get("pieces"),
+                       "bufferedReadSeeker call sequence %s (source pieces pattern %s): call #%d is not what ReplayBuf allows - a replay must deliver the stream from its start, byte for byte" % (" ".join(calls), seg[1].get("pieces"), idx), seg=seg, tlc_out=out[-1500:])
+    okb = [s for s in bsegs if not any(s is f[0] for f in bf) and any(e.get("op") == "seek" and e.get("ok") for e in s[1:]) and sum(1 for e in s[1:] if e.get("op") == "read" and e.get("k", 0) >= 4) >= 2]
+    if okb:
+        def wrong_offset(seg):
+            for e in reversed(seg):
+                if e.get("op") == "read" and e.get("from", -1) >= 0:
+                    e["from"] += 2
+                    return True
+            return False
+
+        def seek_on_full(seg):
+            for e in seg:
+                if e.get("op") == "seek":
+                    e["ok"] = not e["ok"]
+                    return True
+            return False
+        selftest(ctx, "ReplayBufTrace", "ReplayBufTrace.cfg", okb[0], [("replay-from-wrong-offset", wrong_offset), ("seek-answer-flipped", seek_on_full)])
 
 
 def c05(ctx):
